@@ -2,6 +2,7 @@ package exec
 
 import (
 	"go/types"
+	"sort"
 	"strconv"
 
 	"golang.org/x/tools/go/ssa"
@@ -167,4 +168,26 @@ func init() {
 		o.ownsArr = true
 		return Slice{A: ArrRef{Obj: o}, Len: len(el), Cap: len(el)}
 	})
+}
+
+// os.Environ / syscall.Environ: the entries of the stub environment, sorted by name, as "name=value" strings (the
+// value part may be symbolic).
+func init() {
+	environ := func(e *Exec, fn *ssa.Function, a []Value) Value {
+		m := e.envMap()
+		names := make([]string, 0, len(m))
+		for k := range m {
+			names = append(names, k)
+		}
+		sort.Strings(names)
+		el := make([]Value, 0, len(names))
+		for _, k := range names {
+			el = append(el, e.concat(e.strFromGo(k+"="), m[k]))
+		}
+		o := e.newObj(&Array{E: el}, "os.Environ")
+		o.ownsArr = true
+		return Slice{A: ArrRef{Obj: o}, Len: len(el), Cap: len(el)}
+	}
+	reg("os.Environ", environ)
+	reg("syscall.Environ", environ)
 }
